@@ -383,6 +383,7 @@ def check_dtype(dtype, value, node):
             raise AbsRaise("OverflowError", node)
 
 
+FALLBACK_CLASS_ATTR = None  # set by engines/resolve.install(project): class-level constants read through an instance
 FALLBACK_NAMES = None       # set by engines/resolve.install(project): module-level constants / class attributes by name
 FALLBACK_RESOLVER = None    # set by engines/resolve.install(project): resolves un-scripted calls to package functions
 
@@ -1015,6 +1016,10 @@ class Evaluator:
             if n.attr in base.attrs:
                 v = base.attrs[n.attr]
                 return v() if callable(v) else v
+            if FALLBACK_CLASS_ATTR is not None and self.runtime is None:
+                found, v = FALLBACK_CLASS_ATTR(self, n.attr, n)
+                if found:
+                    return v
             raise Unsupported(f"attribute {n.attr} of {base!r}", n)
         if isinstance(base, dict) and n.attr in base:
             return base[n.attr]
@@ -1275,6 +1280,18 @@ class Evaluator:
                 return fv(*args, **kw)
             except (ValueError, TypeError) as exc:
                 raise AbsRaise(type(exc).__name__, n)
+        if name == "dict.fromkeys" and "dict" not in self.env:
+            args, kw = self._call_args(n)
+            keys = args[0]
+            if hasattr(keys, "abs_iter"):
+                keys = list(keys.abs_iter())
+            if isinstance(keys, (set, frozenset)):
+                keys = sorted(keys, key=repr)
+            if isinstance(keys, dict):
+                keys = list(keys)
+            if not isinstance(keys, (list, tuple, str)):
+                raise Unsupported("dict.fromkeys over an abstract iterable", n)
+            return {k: (args[1] if len(args) > 1 else None) for k in keys}
         if FALLBACK_RESOLVER is not None and self.runtime is None:
             found, val = FALLBACK_RESOLVER(self, n, name)
             if found:
